@@ -460,9 +460,19 @@ _public_ int m_mod_register(const char *name, m_mod_t **mod_ref, const m_mod_hoo
             M_DEBUG("Module with same name already registered in context.");
             return -EEXIST;
         }
+        /*
+         * Replaced module's on_stop() hook may finalize, or even deregister, the context:
+         * nothing can be registered in it any more then. Keep it alive until we have checked.
+         */
+        m_mem_ref(c);
         ret = mod_deregister(&old_mod, false);
+        const bool finalized = c->finalized;
+        m_mem_unref(c);
         if (ret != 0) {
             return ret;
+        }
+        if (finalized) {
+            return -EPERM;
         }
     }
 
